@@ -1,5 +1,4 @@
 SPECIFICATION Spec
-CONSTANT Clause = "all"
 CONSTRAINT Mark
 CONSTRAINT Skipped
 POSTCONDITION AllAccepted
